@@ -36,7 +36,14 @@ RULE = (
     'INT((x-rold)*2^(7-NEXP)+127.5) re-computed in Python with REAL*4 '
     'rounding at each operation, rold following the stored bytes (an integer'
     ' outside 0..255 = wrap-around); KSUM = sum(bytes) mod 255 or the '
-    'rotating sum (255/0 ambiguity accepted); PREC = 2^NEXP/254 (rtol 1e-6);'
+    'rotating sum: "checksum equal to the byte sum" can only mean '
+    'congruence (hundreds of bytes, three digits); the ARL routine the '
+    'module transcribes in its ORIGINAL SERIAL CODE comments folds with '
+    'end-around carry (255 for non-zero multiples of 255), the vector code '
+    'takes sum % 255 (0), the reader never verifies it - the statement does '
+    'not choose the representative of class 0, so both are accepted; fields '
+    'with byte sums that are exact multiples of 255 are generated on purpose'
+    ' (family ksum255) and the returned value is recorded in the labels; PREC = 2^NEXP/254 (rtol 1e-6);'
     ' |unpack(pack(x)) - x| <= 2*PREC = 2^(NEXP-7)*256/254 element-wise '
     '(the weaker of "one step" and "twice the recorded precision"; float64 '
     'compare of REAL*4 values); first element equal (-0.0 == 0.0).  An '
@@ -44,10 +51,13 @@ RULE = (
     'x row/column) is replayed in every run.  File level (~6%): lat-lon ARL files (GRIDX 0) nx, ny '
     '17-24, 1-4 times (gaps 1..744 h: sub-daily, one day, several days, '
     'month/year ends), 2-4 levels (sigma / pressure / '
-    'height text), 1-3 surface and 1-3 upper variables (upper levels may '
-    'carry fewer variables), fields base + amp * '
+    'height text), 1-3 surface and 1-3 upper variables (per-level lists: '
+    'uniform, fewer names aloft, a name appearing only on a higher level - '
+    'also above a level that merely repeats names from below -, differing '
+    'order within a level), fields base + amp * '
     'pattern, written by the struct-only reference encoder; arlpackedbit('
-    'file): data variable list = surface + upper keys, z = level heights, '
+    'file): data variable set = surface names + union of the upper-level '
+    'names (each variable on exactly the levels that carry it), z = level heights, '
     'SFCVGLVL, times (yy mm dd hh of every index label; the time variable '
     '= exact hours since the first record with that reference instant; '
     'getTimes() = the encoded instants), shapes, every '
@@ -124,6 +134,35 @@ def field_ints(draw):
     vals = [_f(v * 2.0 ** k) for v in m]
     return dict(kind='field', family='ints', ny=ny, nx=nx,
                 rows=[vals[j * nx:(j + 1) * nx] for j in range(ny)])
+
+
+@st.composite
+def field_ksum255(draw):
+    """byte sum an exact multiple of 255 by design: constant fields with
+    255*m cells (all bytes 127), or one row of whole steps 127+k whose last
+    step is chosen to complete the multiple"""
+    if draw(st.sampled_from([True, False])):
+        ny, nx = draw(st.sampled_from([[17, 15], [51, 5], [85, 3], [51, 10],
+                                       [255, 2], [15, 17]]))
+        c = _f(draw(st.sampled_from([0.0, 1.0, -273.15, 5.0e4])))
+        return dict(kind='field', family='ksum255:constant', ny=ny, nx=nx,
+                    rows=[[c] * nx for j in range(ny)])
+    nx = draw(st.integers(3, 16))
+    e = draw(st.integers(-20, 20))
+    ks = [0, draw(st.integers(64, 120))] + draw(st.lists(
+        st.integers(-60, 60), min_size=nx - 3, max_size=nx - 3))
+    tot = 127 * nx + sum(ks)
+    last = (-tot) % 255
+    if last > 127:
+        last -= 255
+    ks.append(last)
+    vals = []
+    acc = 0
+    for k in ks:
+        acc += k
+        vals.append(_f(acc * 2.0 ** e))
+    return dict(kind='field', family='ksum255:steps', ny=1, nx=nx,
+                rows=[vals])
 
 
 def _dmax(k, variant):
@@ -242,22 +281,42 @@ GAPS = [1, 3, 6, 12, 24, 24, 27, 48, 72, 240, 744]
 @st.composite
 def file_case(draw):
     nt = draw(st.sampled_from([1, 2, 2, 3, 3, 4]))
-    # upper levels may carry fewer variables (as GDAS/NAM files do): number
-    # of trailing upper keys dropped per upper level, none on the first
-    ragged = draw(st.sampled_from([False, False, True]))
-    nlev = draw(st.sampled_from([3, 4] if ragged else [2, 3, 4]))
+    # per-level variable lists: 'uniform' (same names everywhere), 'fewer'
+    # (upper levels drop trailing names, as GDAS/NAM files do), 'late' (a
+    # name that first appears on a higher level, possibly above a level that
+    # only repeats the names below), any order within a level
+    mode = draw(st.sampled_from(['uniform', 'uniform', 'fewer', 'late',
+                                 'late']))
+    nlev = draw(st.sampled_from([2, 3, 4] if mode == 'uniform' else [3, 4]))
     nsfc = draw(st.sampled_from([1, 2, 3]))
-    nupp = draw(st.sampled_from([2, 3] if ragged else [1, 2, 3]))
+    nupp = draw(st.sampled_from([1, 2, 3] if mode == 'uniform' else [2, 3]))
     sfc = list(draw(st.permutations(SFC)))[:nsfc]
     upp = list(draw(st.permutations(UPP)))[:nupp]
     levels = draw(st.sampled_from(LEVELSETS))[:nlev]
-    drop = [0] * (nlev - 1)
-    if ragged:
+    uplists = [list(upp) for k in range(nlev - 1)]
+    if mode == 'fewer':
         j = draw(st.sampled_from(list(range(1, nlev - 1))))
         for k in range(1, nlev - 1):
-            drop[k] = draw(st.sampled_from([1, nupp - 1])) if k == j else \
+            d = draw(st.sampled_from([1, nupp - 1])) if k == j else \
                 draw(st.sampled_from([0, 1]))
-    lenh = 108 + 8 + 8 * nsfc + sum(8 + 8 * (nupp - d) for d in drop)
+            uplists[k] = upp[:nupp - d]
+    elif mode == 'late':
+        early = upp[:-1]
+        late = upp[-1]
+        uplists[0] = list(early)
+        for k in range(1, nlev - 2):
+            # a level that adds nothing new (repeats names from below)
+            uplists[k] = list(draw(st.permutations(early)))[
+                :draw(st.sampled_from([len(early), 1]))]
+        top = [late] + list(draw(st.permutations(early)))[
+            :draw(st.sampled_from([0, 1, len(early)]))]
+        uplists[nlev - 2] = list(draw(st.permutations(top)))
+    if draw(st.sampled_from([False, False, True])) and mode != 'fewer':
+        # same names, different order within a level
+        k = draw(st.sampled_from(list(range(nlev - 1))))
+        if mode == 'uniform' or k > 0:
+            uplists[k] = list(draw(st.permutations(uplists[k])))
+    lenh = 108 + 8 + 8 * nsfc + sum(8 + 8 * len(u) for u in uplists)
     nx = draw(st.integers(17, 24))
     ny = draw(st.integers(17, 24))
     while nx * ny < 108 + lenh:
@@ -276,7 +335,7 @@ def file_case(draw):
             d = d + datetime.timedelta(hours=gaps[t - 1])
         times.append([d.year % 100, d.month, d.day, d.hour, ff])
     fields = []
-    nrec = nt * (nsfc + sum(nupp - d for d in drop))
+    nrec = nt * (nsfc + sum(len(u) for u in uplists))
     for k in range(nrec):
         fields.append([draw(st.sampled_from([0.0, 273.0, 101325.0, -12.5,
                                              1e-4, 5.0e4])),
@@ -284,7 +343,7 @@ def file_case(draw):
                                              0.015625])),
                        draw(st.integers(0, 1000))])
     return dict(kind='file', nx=nx, ny=ny, times=times, levels=levels,
-                sfc=sfc, upper=upp, drop=drop, vsys=draw(st.sampled_from([1, 2, 3, 4])),
+                sfc=sfc, upper=upp, uplists=uplists, vsys=draw(st.sampled_from([1, 2, 3, 4])),
                 synch=[draw(st.sampled_from([20.0, -30.5, 0.0])),
                        draw(st.sampled_from([-100.0, 0.0, 170.25]))],
                 delta=[draw(st.sampled_from([1.0, 0.25, 2.5])),
@@ -295,7 +354,8 @@ def file_case(draw):
 def strategy(tier):
     fld = st.one_of(field_random(), field_random(), field_offset(),
                     field_constant(), field_ints(), field_maxdiff(),
-                    field_maxdiff(), field_carry(), field_carry())
+                    field_maxdiff(), field_carry(), field_carry(),
+                    field_ksum255())
     return st.sampled_from(list(range(16))).flatmap(
         lambda n: file_case() if n == 0 else fld)
 
@@ -427,6 +487,10 @@ def check_field(spec):
                'formula gives %d (NEXP %d)' % (j, i, got, want, nexp),
                klass=klass)
     tot = int(b.astype('i8').sum())
+    if tot % 255 == 0 and tot > 0:
+        # both representatives of the class are accepted (see RULE); record
+        # which one the packer returned
+        r.label('bytesum%255==0', 'bytesum%%255==0:KSUM=%d' % int(ksum))
     if int(ksum) not in (tot % 255, A.rotating_sum(b.ravel().tolist())):
         r.fail('checksum', 'KSUM %r, byte sum %d (mod 255 = %d, rotating %d)'
                % (ksum, tot, tot % 255, A.rotating_sum(b.ravel().tolist())))
@@ -473,9 +537,23 @@ def _pattern(i, j, seed):
 
 
 def upper_lists(spec):
+    """variable names per upper level (explicit lists; older replay files
+    give the number of trailing names dropped per level instead)"""
+    if spec.get('uplists'):
+        return [list(u) for u in spec['uplists']]
     nupp = len(spec['upper'])
     drop = spec.get('drop') or [0] * (len(spec['levels']) - 1)
     return [spec['upper'][:nupp - d] for d in drop]
+
+
+def upper_union(spec):
+    """upper-level names in order of first appearance going up"""
+    out = []
+    for u in upper_lists(spec):
+        for k in u:
+            if k not in out:
+                out.append(k)
+    return out
 
 
 def file_model(spec):
@@ -514,8 +592,25 @@ def check_file(spec):
     r.nontrivial = bool(nt >= 2 and nlev >= 3)
     if nt >= 2 and nlev >= 3:
         r.label('multi-time-multi-level')
-    if any(spec.get('drop') or []):
+    ul = upper_lists(spec)
+    uniform = all(u == ul[0] for u in ul)
+    if not uniform:
         r.label('ragged-levels')
+    seen = list(ul[0])
+    repeated = False
+    for u in ul[1:]:
+        new_ = [k for k in u if k not in seen]
+        if new_:
+            r.label('late-variable')
+            if repeated:
+                r.label('late-after-repeating-level')
+        else:
+            repeated = True
+        seen += new_
+    if any(sorted(u) == sorted(ul[0]) and u != ul[0] for u in ul[1:]) or \
+            any([k for k in u if k in ul[0]] !=
+                [k for k in ul[0] if k in u] for u in ul[1:]):
+        r.label('level-order-varies')
     inst = [datetime.datetime(1900 + t[0] if t[0] >= 69 else 2000 + t[0],
                               t[1], t[2], t[3]) for t in spec['times']]
     span = (inst[-1] - inst[0]).total_seconds() / 3600.0
@@ -549,11 +644,11 @@ def check_file(spec):
         ok, f = guard(r, 'reader-open', lambda: arlpackedbit(path))
         if not ok:
             return r
-        want = spec['sfc'] + spec['upper']
+        want = spec['sfc'] + upper_union(spec)
         got = [k for k in f.variables.keys()
                if k not in ('x', 'y', 'x_bounds', 'y_bounds', 'time', 'z',
                             'crs')]
-        if got != want:
+        if sorted(got) != sorted(want):
             r.fail('reader-varlist', 'variables %r, file holds %r' %
                    (got, want))
         ok, z = guard(r, 'reader-levels',
@@ -635,7 +730,7 @@ def check_file(spec):
         # ---- writer direction (observe_at): judged by the reference decoder
         # (the writer takes one z coordinate for all upper variables, so
         # files with level-dependent variable lists are outside its domain)
-        if not r.failures and not any(spec.get('drop') or []):
+        if not r.failures and uniform:
             opath = os.path.join(base, 'out.arl')
             ok, _ = guard(r, 'writer', lambda: writearlpackedbit(f, opath))
             if ok:
